@@ -275,7 +275,11 @@ func vNRules() int {
 }
 
 func vC08Kind(kind string) {
-	vC08KindRules(kind, vRules(vNRules(), kind == "key", kind == "service" && verifrt.Thorough()))
+	n := vNRules()
+	if kind == "key" {
+		n = 2 // (three key rules with the list level: more than 1.5 million paths, did not finish in 45 minutes)
+	}
+	vC08KindRules(kind, vRules(n, kind == "key", kind == "service" && verifrt.Thorough()))
 }
 
 // Service rules with every "intentions" value, for rules that several policies
